@@ -1,6 +1,167 @@
-"""Lean side: build generated modules + certificates, audit axioms, report obligations. (filled in below)"""
+"""Lean side of every check: (re)build, axiom audit, obligations per property, correspondence runs."""
 from __future__ import annotations
+
+import fcntl
+import hashlib
+import json
+import re
+import subprocess
+import time
+from pathlib import Path
+
+from harness.common import CACHE, VERIF
+
+LEAN = VERIF / "lean"
+ALLOWED_AXIOMS = {"propext", "Classical.choice", "Quot.sound"}
+FORBIDDEN = re.compile(r"\bsorry\b|\badmit\b|^axiom |native_decide|bv_decide|implemented_by|\bunsafe |maxHeartbeats 0", re.M)
+
+# property -> theorems (fully qualified) that are its proof obligations, with the module they live in
+THEOREMS = {
+    "C06": [
+        ("XV.procArgs_groups", "XonshVerif.Properties.C06"),
+        ("XV.runs_flatten", "XonshVerif.Properties.C06"),
+        ("XV.runs_nonempty", "XonshVerif.Properties.C06"),
+        ("XV.procArgs_length", "XonshVerif.Properties.C06"),
+        ("XV.glue_span", "XonshVerif.Properties.C06"),
+        ("XV.glue_words", "XonshVerif.Properties.C06"),
+        ("XV.words_are_source_words", "XonshVerif.Properties.C06"),
+    ],
+}
+# named statements that are NOT proved (kept visible; reported as `unproved`)
+UNPROVED = {}
+
+
+def _src_hash():
+    h = hashlib.sha256()
+    for p in sorted(LEAN.rglob("*.lean")):
+        if ".lake" in p.parts:
+            continue
+        h.update(str(p.relative_to(LEAN)).encode())
+        h.update(p.read_bytes())
+    h.update((LEAN / "lakefile.toml").read_bytes())
+    return h.hexdigest()[:16]
+
+
+def strip_comments(text: str) -> str:
+    text = re.sub(r"/-.*?-/", "", text, flags=re.S)
+    return re.sub(r"--.*", "", text)
+
+
+def build():
+    """lake build + grep audit + #print axioms; cached on the hash of the Lean sources. Returns a dict."""
+    CACHE.mkdir(exist_ok=True)
+    lock = open(CACHE / "lean.lock", "w")
+    fcntl.flock(lock, fcntl.LOCK_EX)
+    try:
+        key = _src_hash()
+        stamp = CACHE / "lean_build.json"
+        if stamp.exists():
+            d = json.loads(stamp.read_text())
+            if d.get("key") == key and (LEAN / ".lake" / "build" / "bin" / "driver").exists():
+                return d
+        t0 = time.time()
+        pr = subprocess.run(["lake", "build", "XonshVerif", "XonshCerts", "driver"], cwd=LEAN, capture_output=True, text=True, timeout=3600)
+        out = pr.stdout + pr.stderr
+        failed = re.findall(r"✖ \[\d+/\d+\] Building (\S+)", out)
+        failed += re.findall(r"^- (\S+)$", out, re.M)
+        errors = re.findall(r"^error: (.*)$", out, re.M)[:20]
+        # forbidden constructs outside comments
+        bad = []
+        for p in sorted(LEAN.rglob("*.lean")):
+            if ".lake" in p.parts:
+                continue
+            m = FORBIDDEN.search(strip_comments(p.read_text()))
+            if m:
+                bad.append(f"{p.relative_to(LEAN)}: {m.group(0).strip()}")
+        # axiom audit
+        names = sorted({n for lst in THEOREMS.values() for n, _ in lst} | set(_cert_names()))
+        audit = LEAN / ".lake" / "Audit.lean"
+        audit.parent.mkdir(exist_ok=True)
+        audit.write_text("import XonshVerif\nimport XonshCerts\n" + "".join(f"#print axioms {n}\n" for n in names))
+        pa = subprocess.run(["lake", "env", "lean", str(audit)], cwd=LEAN, capture_output=True, text=True, timeout=1800)
+        axioms = {}
+        txt = pa.stdout + pa.stderr
+        for m in re.finditer(r"'([^']+)' depends on axioms: \[([^\]]*)\]", txt):
+            axioms[m.group(1)] = [a.strip() for a in m.group(2).replace("\n", " ").split(",") if a.strip()]
+        for m in re.finditer(r"'([^']+)' does not depend on any axioms", txt):
+            axioms[m.group(1)] = []
+        d = {"key": key, "rc": pr.returncode, "failed_modules": sorted(set(failed)), "errors": errors, "forbidden": bad, "axioms": axioms, "audit_errors": re.findall(r"error: (.*)", txt)[:10], "wall": round(time.time() - t0, 1)}
+        stamp.write_text(json.dumps(d, indent=1))
+        return d
+    finally:
+        fcntl.flock(lock, fcntl.LOCK_UN)
+        lock.close()
+
+
+def _cert_names():
+    p = LEAN / "XonshCerts.lean"
+    names = []
+    for f in sorted((LEAN / "XonshCerts").glob("*.lean")) if (LEAN / "XonshCerts").exists() else []:
+        for m in re.finditer(r"^theorem\s+(\S+)", strip_comments(f.read_text()), re.M):
+            names.append("XVC." + m.group(1) if not m.group(1).startswith("XVC.") else m.group(1))
+    return names
+
+
+CERTS = {}  # property -> [(theorem name, module, human description)] ; filled in by harness/translate
 
 
 def obligations(rep, pid, tier):
-    return
+    from harness import corr
+
+    rep.trusted = list(rep.trusted)
+    b = build()
+    rep.checker_cmd = "cd lean && lake build XonshVerif XonshCerts driver && lake env lean .lake/Audit.lean  (#print axioms on every property theorem and certificate)"
+    rep.extra["lean_build"] = {"rc": b["rc"], "failed_modules": b["failed_modules"], "wall_s": b["wall"], "forbidden_constructs": b["forbidden"]}
+    if b["forbidden"]:
+        rep.obligation("audit: no sorry/admit/axiom/native_decide/bv_decide/implemented_by/unsafe/maxHeartbeats 0", False, "; ".join(b["forbidden"]))
+    for name, mod in THEOREMS.get(pid, []) + CERTS.get(pid, []):
+        if mod in b["failed_modules"] or any(mod.startswith(f) for f in b["failed_modules"]):
+            rep.obligation(f"theorem {name}", False, f"module {mod} does not build: {b['errors'][:2]}")
+            continue
+        ax = b["axioms"].get(name)
+        if ax is None:
+            rep.obligation(f"theorem {name}", False, "not found by #print axioms (missing or build failed)")
+        elif not set(ax) <= ALLOWED_AXIOMS:
+            rep.obligation(f"theorem {name}", False, f"depends on axioms {ax}")
+        else:
+            rep.obligation(f"theorem {name} [axioms: {', '.join(ax) or 'none'}]", True)
+    for u in UNPROVED.get(pid, []):
+        rep.unproved.append(u)
+    fn = CORR.get(pid)
+    if fn:
+        fn(rep, tier)
+    if tier == "thorough":
+        leanchecker(rep, pid)
+
+
+def leanchecker(rep, pid):
+    mods = sorted({m for _, m in THEOREMS.get(pid, [])})
+    if not mods:
+        return
+    pr = subprocess.run(["lake", "env", "leanchecker"] + mods, cwd=LEAN, capture_output=True, text=True, timeout=3600)
+    rep.obligation(f"leanchecker {' '.join(mods)}", pr.returncode == 0, (pr.stdout + pr.stderr)[-300:] if pr.returncode else "")
+
+
+# ---------------------------------------------------------------- correspondence runs per property
+def corr_c06(rep, tier):
+    from harness import corr
+    from harness.common import rng
+    from harness.gen import corpus, xonshgen
+
+    r = rng("C06", "corr")
+    srcs = [p[0] + "\n" for p in corpus.xonsh_pairs()] + list(xonshgen.XONSH_STMTS)
+    for _ in range(300 if tier == "quick" else 6000):
+        x, _t, _k = xonshgen.gen_subproc(r)
+        srcs.append(f"v = {x}\n")
+    from harness.props import c06
+
+    for kind, text, _r, _k in c06.build_inputs("quick"):
+        if kind == "composite":
+            srcs.append(f"v = {text}\n")
+    cases = corr.procargs_cases(srcs)
+    bad = corr.run_correspondence(rep, "procArgs", cases)
+    for b in bad[:3]:
+        rep.extra.setdefault("correspondence_disagreements", []).append(b)
+
+
+CORR = {"C06": corr_c06}
